@@ -30,9 +30,9 @@ type raceReport struct {
 // deterministic ties of the step model.
 func corrRace(prop, outDir string, seed uint64, tier string) *report {
 	rep := newReport(prop, seed, tier)
-	bin, mode := "/verif/build/racecheck", "all"
+	bin, mode := buildPath("racecheck"), "all"
 	if prop == "C09" {
-		bin, mode = "/verif/build/racecheck_purego", "argon2"
+		bin, mode = buildPath("racecheck_purego"), "argon2"
 	}
 	if b := os.Getenv("VERIF_RACECHECK"); b != "" {
 		bin = b
